@@ -30,7 +30,7 @@ func omnibus(run *Run, o Omni, visit Visit) {
 		r := rand.New(rand.NewSource(subSeed(run.Res.Seed, bi)))
 		opts := o.Opts
 		opts.Inject = bi%3 == 1
-		opts.Gen.Degenerate = bi%5 == 4
+		opts.Gen.Degenerate = bi%3 == 2
 		opts.SecondPath = bi%4 == 2
 		scs := genScenarios(r, opts)
 		for si, s := range scs {
